@@ -50,6 +50,7 @@ func (v *viewIndexer) Get(obj interface{}) (interface{}, bool, error) {
 	}
 	return o, ok, err
 }
+
 // sortObjs puts objects handed out by the cache into key order: the indexer returns
 // them in Go map order, which would make runs irreproducible (any order is legal).
 func sortObjs(l []interface{}) {
@@ -181,6 +182,14 @@ func (d *DetInformer) PendingListeners() []int {
 		}
 	}
 	return out
+}
+
+// ListenerPending returns the number of notifications listener id has not handled yet.
+func (d *DetInformer) ListenerPending(id int) int {
+	if id < 0 || id >= len(d.listeners) {
+		return 0
+	}
+	return len(d.listeners[id].pending)
 }
 
 // Notify handles the oldest pending notification of listener id.
